@@ -1,3 +1,5 @@
+import IceTie.AgentDefaults
+import IceTie.AgentTick
 import IceProofs.AgentC04Run
 import IceTie.AgentTiming
 import IceTie.Order
@@ -463,5 +465,75 @@ example : IceGen.agent_updateConnectionState 3 5
     = IceTie.Order.releaseEffs ++ [IceModel.Eff.set "a.connectionState" (IceModel.Val.i 5),
         IceModel.Eff.call "connectionStateNotifier.Enqueue" [IceModel.Val.i 5]] ∧
     IceGen.agent_updateConnectionState 3 3 = [] ∧ ((3 : Int64) == 5) = false := by decide
+
+/-! ## Tie to the code (T, round 3): `validateSelectedPair`, `checkKeepalive`, `liteSelector.ContactCandidates` and the timing
+defaults of agent_config.go are REGENERATED on every run (`IceGen.T_Round3`) -/
+
+open IceTie.AgentTiming IceTie.AgentTick in
+/-- `Agent.validateSelectedPair`: without a selected pair nothing happens (`false`); with one, exactly one
+`updateConnectionState(connectionStateForDisconnection(silence, total))`, `total` = failedTimeout (+ disconnectedTimeout when
+non-zero); for non-negative, non-overflowing durations that argument is the model's `stateForDisconnection` on `totalToFailure`,
+which is what `Agent.validateSelected` hands to `setConnState` -/
+theorem C04_code_validateSelectedPair :
+    (∀ hasSelected silence failed disc cs, IceGen.agent_validateSelectedPair hasSelected silence failed disc cs
+      = if hasSelected then
+          ([c1 "updateConnectionState"
+              (IceModel.Val.i (IceGen.agent_connectionStateForDisconnection silence (totalCode failed disc) disc cs).toInt)], true)
+        else ([], false)) ∧
+    (∀ (silence failed disc cs : Int64), 0 ≤ silence.toInt → 0 ≤ failed.toInt → 0 ≤ disc.toInt →
+      failed.toInt + disc.toInt < 2 ^ 63 → ∀ cfg : Config, cfg.failedTimeout = dur failed → cfg.disconnectedTimeout = dur disc →
+      IceGen.agent_validateSelectedPair true silence failed disc cs
+        = ([c1 "updateConnectionState"
+              (IceModel.Val.i (csCode (stateForDisconnection cfg (csOf cs) (some (dur silence)) (totalToFailure cfg))).toInt)], true)) ∧
+    (∀ (a : Agent) (now : Nat), a.selected.bind a.pairById = none → a.validateSelected now = (a, [], false)) :=
+  ⟨validateSelectedPair_tie, fun s f d cs h0 h1 h2 hov cfg hf hd => validateSelectedPair_model s f d cs h0 h1 h2 hov cfg hf hd,
+   fun a now h => by rw [validateSelected_model, h]⟩
+
+/-- non-vacuity: 6 s of silence with the default timeouts (5 s / 25 s) reports Disconnected (6); 31 s reports Failed (5) from
+Disconnected -/
+example : IceGen.agent_validateSelectedPair true 6000000000 25000000000 5000000000 3
+      = ([IceTie.AgentTick.c1 "updateConnectionState" (IceModel.Val.i 6)], true) ∧
+    IceGen.agent_validateSelectedPair true 31000000000 25000000000 5000000000 6
+      = ([IceTie.AgentTick.c1 "updateConnectionState" (IceModel.Val.i 5)], true) ∧
+    IceGen.agent_validateSelectedPair false 0 0 0 0 = ([], false) := by decide
+
+open IceTie.AgentTick in
+/-- `Agent.checkKeepalive`: one ping on the selected pair iff there is one and `keepaliveInterval ≠ 0`; the model's `keepalive`
+does nothing under `keepaliveInterval = 0`.  `liteSelector.ContactCandidates`: over a controlled selector ONLY
+`validateSelectedPair` — the model's lite controlled tick is `validateSelected` alone -/
+theorem C04_code_keepalive_and_lite :
+    (∀ hasSelected keepalive, IceGen.agent_checkKeepalive hasSelected keepalive
+      = if hasSelected && keepalive != 0 then [c "PingCandidate(selected)"] else []) ∧
+    (∀ (a : Agent) (now : Nat), a.cfg.keepaliveInterval = 0 → a.keepalive now = (a, [])) ∧
+    (∀ isControlling isControlled, IceGen.liteSelector_ContactCandidates isControlling isControlled
+      = if isControlling then [c "inner.ContactCandidates"] else if isControlled then [c "validateSelectedPair"] else []) ∧
+    (∀ (a : Agent) (now : Nat), a.controlling = false → a.cfg.lite = true →
+      a.contactCandidates now = ((a.validateSelected now).1, (a.validateSelected now).2.1)) :=
+  ⟨checkKeepalive_tie, keepalive_off, liteContactCandidates_tie, contactCandidates_lite_controlled⟩
+
+example : IceGen.agent_checkKeepalive true 2000000000 = [IceTie.AgentTick.c "PingCandidate(selected)"] ∧
+    IceGen.agent_checkKeepalive true 0 = [] ∧
+    IceGen.liteSelector_ContactCandidates false true = [IceTie.AgentTick.c "validateSelectedPair"] := by decide
+
+open IceTie.AgentDefaults in
+/-- agent_config.go `initWithDefaults`, timing fields: each is assigned once, the default (disconnected 5 s, failed 25 s,
+keepalive 2 s, check interval 200 ms) when the option is nil; these are the field defaults of the model's `Config` -/
+theorem C04_code_timing_defaults :
+    (∀ n1 v1 n2 v2 n3 v3 n4 v4, IceGen.agentConfig_initWithDefaults_timing n1 v1 n2 v2 n3 v3 n4 v4
+      = [setI "agent.disconnectedTimeout" n1 5000000000 v1, IceModel.Eff.set "agent.disconnectedTimeoutExplicit" (IceModel.Val.b (!n1)),
+         setI "agent.failedTimeout" n2 25000000000 v2, setI "agent.keepaliveInterval" n3 2000000000 v3,
+         setI "agent.checkInterval" n4 200000000 v4]) ∧
+    (∀ v, IceGen.agentConfig_initWithDefaults_timing true v true v true v true v
+      = [IceModel.Eff.set "agent.disconnectedTimeout" (IceModel.Val.i ({} : Config).disconnectedTimeout),
+         IceModel.Eff.set "agent.disconnectedTimeoutExplicit" (IceModel.Val.b ({} : Config).disconnectedExplicit),
+         IceModel.Eff.set "agent.failedTimeout" (IceModel.Val.i ({} : Config).failedTimeout),
+         IceModel.Eff.set "agent.keepaliveInterval" (IceModel.Val.i ({} : Config).keepaliveInterval),
+         IceModel.Eff.set "agent.checkInterval" (IceModel.Val.i ({} : Config).checkInterval)]) :=
+  ⟨initWithDefaults_timing_tie, fun v => (defaults_model v 0).2⟩
+
+example : IceGen.agentConfig_initWithDefaults_timing false 1000 true 0 true 0 true 0
+    = [IceModel.Eff.set "agent.disconnectedTimeout" (IceModel.Val.i 1000), IceModel.Eff.set "agent.disconnectedTimeoutExplicit" (IceModel.Val.b true),
+       IceModel.Eff.set "agent.failedTimeout" (IceModel.Val.i 25000000000), IceModel.Eff.set "agent.keepaliveInterval" (IceModel.Val.i 2000000000),
+       IceModel.Eff.set "agent.checkInterval" (IceModel.Val.i 200000000)] := by decide
 
 end IceProps.C04
